@@ -8,6 +8,8 @@ int vs_mutex_destroy(pthread_mutex_t *);
 int vs_cond_init(pthread_cond_t *, const pthread_condattr_t *);
 int vs_cond_wait(pthread_cond_t *, pthread_mutex_t *);
 int vs_cond_signal(pthread_cond_t *);
+int vs_cond_broadcast(pthread_cond_t *);
+int vs_mutex_trylock(pthread_mutex_t *);
 int vs_cond_destroy(pthread_cond_t *);
 int vs_create(pthread_t *, const pthread_attr_t *, void *(*)(void *), void *);
 int vs_join(pthread_t, void **);
@@ -19,6 +21,8 @@ int vs_join(pthread_t, void **);
 #define pthread_cond_init vs_cond_init
 #define pthread_cond_wait vs_cond_wait
 #define pthread_cond_signal vs_cond_signal
+#define pthread_cond_broadcast vs_cond_broadcast
+#define pthread_mutex_trylock vs_mutex_trylock
 #define pthread_cond_destroy vs_cond_destroy
 #define pthread_create vs_create
 #define pthread_join vs_join
@@ -27,6 +31,8 @@ int vs_join(pthread_t, void **);
 void vs_config(int mode, int post_unlock_yield, int npreempt, long horizon, unsigned long seed);
 void vs_decisions(int n, const long *steps, const int *choices, int policy);   /* systematic mode: preempt only at these steps */
 extern int vs_decision_invalid;
+void vs_lockorder(int n, const int *threads, const int *mutexes);   /* follow a model behaviour's order of mutex acquisitions */
+int vs_lockorder_left(void);
 void vs_begin(unsigned long seed, int spurious_pct);   /* registers calling thread as thread 0 */
 int  vs_end(void);                                       /* returns number of scheduling steps */
 extern int vs_deadlock;                                  /* set when no thread is enabled */
